@@ -28,11 +28,14 @@ FUNCTIONS = ["stackscope._lowlevel.analyze_with_blocks", "stackscope._lowlevel.d
              "stackscope._lowlevel._contexts_active_by_trickery (varname fallback)"]
 
 SUPPORTED_TARGETS = ["x", "E.a", "E.a.b", "E.d[0]", "E.d['k']", "E.d[i]", "E.f(1).y", "(p, q)", "[p, q]", "(p, *q)",
-                     "(p, (q, r))", "E.d[0][1]", "E.g().z", "(E.a, E.d[0])", "(*p, q)"]
+                     "(p, (q, r))", "E.d[0][1]", "E.g().z", "(E.a, E.d[0])", "(*p, q)",
+                     # calls with several distinct positional arguments (their order is part of the target), also nested in chains / tuples
+                     "E.f(1, i).y", "E.f(i, 0, 'z')[1]", "(E.f(1, 2, 3).y, (p, *q))"]
 # not in the documented supported set: may be dropped (None) but must never be wrong
 # (slices are rendered on 3.12 via STORE_SLICE and dropped on 3.11, where they compile to BUILD_SLICE)
 UNSUPPORTED_TARGETS = ["E.d[i + 1]", "E.f(k=1).y", "E.d[-1]", "E.d[i][j + 1]", "E.f(*t).y", "E.d[0:1]", "E.d[i:j]"]
-SHAPES = {"(p, q)": "pair", "[p, q]": "pair", "(p, *q)": "triple", "(p, (q, r))": "nested", "(E.a, E.d[0])": "pair", "(*p, q)": "triple"}
+SHAPES = {"(p, q)": "pair", "[p, q]": "pair", "(p, *q)": "triple", "(p, (q, r))": "nested", "(E.a, E.d[0])": "pair", "(*p, q)": "triple",
+          "(E.f(1, 2, 3).y, (p, *q))": "nested"}
 LAYOUTS = ["one_line", "item_per_line", "parenthesised", "expr_spans_lines"]
 
 
